@@ -1204,6 +1204,8 @@ def map_method(spec, eng, m, name, args, kwargs, node):
         kt = m.kty.lift(args[0]).term
         default = args[1] if len(args) > 1 else None
         if default is None:
+            if hasattr(m.vty, "none_value"):
+                return Sym(z3.If(m.has(kt), m.get(kt), m.vty.none_value()), m.vty)
             if isinstance(m.vty, TUn) and m.vty.has_none:
                 return Sym(z3.If(m.has(kt), m.get(kt), m.vty.none_term()), m.vty)
             ot = TOpt(m.vty)
@@ -1508,6 +1510,15 @@ def m_list(eng, args, kwargs, node):
         return SeqBox(v.term, v.ty)
     if isinstance(v, SeqBox):
         return SeqBox(v.term, v.ty)
+    if isinstance(v, ItemsIter) and v.keys0 is not None:
+        # list(d.items()): the sequence of (key, value) pairs in key order
+        m = v.m
+        tt = TTup(m.kty, m.vty)
+        r = TSeq(tt).fresh("items")
+        i = z3.Int(sv.fresh_name("i"))
+        eng.assume(z3.Length(r.term) == z3.Length(v.keys0))
+        eng.assume(z3.ForAll([i], z3.Implies(z3.And(0 <= i, i < z3.Length(v.keys0)), r.term[i] == tt.mk(v.keys0[i], z3.Select(m.val, v.keys0[i])))), heavy=True)
+        return SeqBox(r.term, r.ty)
     raise OutOfSubset("list(%r) at line %s" % (v, node.lineno))
 
 
